@@ -274,7 +274,7 @@ class Interp19(I.Interp):
 
 
 def interp(prog, h):
-    it = Interp19(prog, W=64, models=models_for(h) + K.CONTAINER_MODELS + M.MODELS, timeout_ms=20000)
+    it = Interp19(prog, W=64, models=models_for(h) + K.CONTAINER_MODELS + PC.MODELS + M.MODELS, timeout_ms=20000)
     return it
 
 
